@@ -9,6 +9,7 @@ import PasfmtModel.Model.IO
 import PasfmtModel.Model.Consolidators
 import PasfmtModel.Model.ParserFull
 import PasfmtModel.Model.WrapStage
+import PasfmtModel.Model.WrapStageFull
 
 namespace Pasfmt
 
@@ -148,6 +149,20 @@ def parseKidsGo : Nat → List Char → Option (List (Nat × Sol) × List Char)
     | _ => none
 end
 
+mutual
+def showSol : Sol → String
+  | .mk ind cont decs => s!"{ind}.{cont}[{showDecs decs}]"
+def showDecs : List (Dec × List (Nat × Sol)) → String
+  | [] => ""
+  | (d, ks) :: rest =>
+    (match d with | .brk n => s!"B{n}" | .cont => "C") ++
+    (match ks with | [] => "" | _ => "(" ++ showKids ks ++ ")") ++
+    (match rest with | [] => "" | _ => ";" ++ showDecs rest)
+def showKids : List (Nat × Sol) → String
+  | [] => ""
+  | (li, s) :: rest => s!"{li}={showSol s}" ++ (match rest with | [] => "" | _ => "," ++ showKids rest)
+end
+
 /-- one hook record `phase:line:solution` -/
 def parseSolRecord (s : String) : Option (Nat × Nat × Sol) :=
   match s.splitOn ":" with
@@ -214,6 +229,22 @@ def handleFmt (cfgS inpS kindsS linesS postS changedS alnumS cursorsS : String) 
       let prec := showChanged (raw.map (·.content)) (ft1.map (·.tok.content))
       s!"{cons}{ws}marks={marksS}\tlv={showLines lines'}\tpre={pre}\tprec={prec}\tkr=1\twc={bool01 wc}\tnd={bool01 ndOk}\trx={bool01 rx}\tcur={showList ((trackCursors cfg.settings raw ft2 cursors).map fun o => match o with | some n => toString n | none => "underflow")}\tout={toHex out}\tinfo_sr={bool01 (safeRunAllGo false ft2)}\tinfo_sn={bool01 (noSafetyNetGo false ft2)}\tinfo_cn={bool01 (canonAll ft2)}\tinfo_nn={bool01 (noNlAll ft2)}\tinfo_nt={bool01 (noTabAll ft2)}"
   | _, _, _, _, _, _, _, _ => "bad-record"
+
+/-- the `wsearch` stream: the whole wrapper stage with the model of the search inside (no recorded solutions) -/
+def handleWsearch (cfgS inpS kindsS linesS alnumS : String) : String :=
+  match parseCfg cfgS, ofHex inpS, (parseList kindsS).mapM TokenType.ofRust, parseLines linesS, (parseList alnumS).mapM ofHex with
+  | some cfg, some inp, some kinds, some lines, some alnum =>
+    match lex inp with
+    | none => "model-none"
+    | some raw =>
+      let O : Oracles := { parser := fun _ => { kinds := kinds, lines := lines }, wrap := fun _ _ ft => ft, alnum := fun b => alnum.contains b }
+      let (_, lines', ft1) := preWrap O raw
+      match wrapStageFull cfg lines' ft1 with
+      | none => "model-none"
+      | some (m, sols) =>
+        let ws := showList (sols.map fun (p, l, s) => s!"{p}:{l}:{showSol s}")
+        s!"ws={ws}\twp={showList (m.map fun t => showFmt t.fmt)}\twcn={showChanged (ft1.map (·.tok.content)) (m.map (·.tok.content))}"
+  | _, _, _, _, _ => "bad-record"
 
 def parseParent (s : String) : Option (Option LineParent) :=
   if s == "-" then some none else
@@ -378,6 +409,7 @@ def handleLine (line : String) : String :=
     handleFmt cfg inp kinds lines post changed alnum cursors (wf == "1") (showConsolidated pk pl) (some sols)
   | ["parse", kinds, passesOps] => handleParse kinds passesOps
   | ["pfull", kinds, nl] => handlePfull kinds nl
+  | ["wsearch", cfg, inp, kinds, lines, alnum] => handleWsearch cfg inp kinds lines alnum
   | ["io", mode, enc, content, header, fmtT, decT, encT] => handleIo mode enc content header fmtT decT encT
   | ["sched", workers] => handleSched workers
   | ["cfg", dirs, file, ov, known, valid, defaults] => handleCfg dirs file ov known valid defaults
